@@ -95,29 +95,29 @@ func (a *Analysis) ruleT5() {
 		words += len(l.Elems)
 		ok := true
 		if len(l.Elems) != 2048 {
-			r.Bad("T5", key+"/length", pos, "", "%s has %d words, BIP39 lists have 2048", gl.Name(), len(l.Elems))
+			r.Bad("T5w", key+"/length", pos, "", "%s has %d words, BIP39 lists have 2048", gl.Name(), len(l.Elems))
 			ok = false
 		} else {
-			r.OK("T5", key+"/length", pos, "", "2048 words")
+			r.OK("T5w", key+"/length", pos, "", "2048 words")
 		}
 		seen := map[string]int{}
 		bad := 0
 		for i, w := range l.Elems {
 			switch {
 			case w == "":
-				r.Bad("T5", fmt.Sprintf("%s/word[%d]", key, i), pos, "", "empty word at index %d", i)
+				r.Bad("T5w", fmt.Sprintf("%s/word[%d]", key, i), pos, "", "empty word at index %d", i)
 				bad++
 			case norm.NFKD.String(w) != w:
-				r.Bad("T5", fmt.Sprintf("%s/word[%d]", key, i), pos, "", "word %q at index %d is not NFKD-stable (NFKD form %q): NFKD-normalised input can never match it", w, i, norm.NFKD.String(w))
+				r.Bad("T5w", fmt.Sprintf("%s/word[%d]", key, i), pos, "", "word %q at index %d is not NFKD-stable (NFKD form %q): NFKD-normalised input can never match it", w, i, norm.NFKD.String(w))
 				bad++
 			default:
 				if c, has := hasWhiteOrControl(w); has {
-					r.Bad("T5", fmt.Sprintf("%s/word[%d]", key, i), pos, "", "word %q at index %d contains white space or control character U+%04X", w, i, c)
+					r.Bad("T5w", fmt.Sprintf("%s/word[%d]", key, i), pos, "", "word %q at index %d contains white space or control character U+%04X", w, i, c)
 					bad++
 				}
 			}
 			if j, dup := seen[w]; dup {
-				r.Bad("T5", fmt.Sprintf("%s/word[%d]", key, i), pos, "", "word %q occurs at index %d and %d: index→word is not injective", w, j, i)
+				r.Bad("T5w", fmt.Sprintf("%s/word[%d]", key, i), pos, "", "word %q occurs at index %d and %d: index→word is not injective", w, j, i)
 				bad++
 			}
 			seen[w] = i
@@ -126,7 +126,7 @@ func (a *Analysis) ruleT5() {
 			}
 		}
 		if bad == 0 {
-			r.OK("T5", key+"/words", pos, "", "%d words: non-empty, pairwise distinct, no white space, NFKD-stable", len(l.Elems))
+			r.OK("T5w", key+"/words", pos, "", "%d words: non-empty, pairwise distinct, no white space, NFKD-stable", len(l.Elems))
 		} else {
 			ok = false
 		}
@@ -138,15 +138,15 @@ func (a *Analysis) ruleT5() {
 		d := hex.EncodeToString(h.Sum(nil))
 		if sp := specByDigest(d); sp != nil {
 			if prev, dup := a.ListOfLang[sp.Name]; dup {
-				r.Bad("T5", key+"/digest", pos, "", "%s and %s both hold the %s list", gl.Name(), prev.Name(), sp.Name)
+				r.Bad("T5d", key+"/digest", pos, "", "%s and %s both hold the %s list", gl.Name(), prev.Name(), sp.Name)
 			} else {
 				a.ListLang[gl] = sp
 				a.ListOfLang[sp.Name] = gl
-				r.OK("T5", key+"/digest", pos, "", "content is the canonical %s list (sha256 %s…)", sp.Name, d[:16])
+				r.OK("T5d", key+"/digest", pos, "", "content is the canonical %s list (sha256 %s…)", sp.Name, d[:16])
 			}
 		} else {
 			// name the nearest intent: which canonical list differs?
-			r.Bad("T5", key+"/digest", pos, "", "content of %s (sha256 %s…) is none of the ten canonical BIP39 lists%s", gl.Name(), d[:16], a.diffHint(l))
+			r.Bad("T5d", key+"/digest", pos, "", "content of %s (sha256 %s…) is none of the ten canonical BIP39 lists%s", gl.Name(), d[:16], a.diffHint(l))
 			ok = false
 		}
 		_ = ok
@@ -156,7 +156,7 @@ func (a *Analysis) ruleT5() {
 	// every canonical language has a list
 	for _, s := range SpecLangs {
 		if _, ok := a.ListOfLang[s.Name]; !ok {
-			r.Bad("T5", "list-for/"+s.Name, "-", "", "no package-level word list holds the canonical %s list", s.Name)
+			r.Bad("T5d", "list-for/"+s.Name, "-", "", "no package-level word list holds the canonical %s list", s.Name)
 		}
 	}
 }
@@ -382,15 +382,16 @@ func (a *Analysis) ruleT3() {
 		} else {
 			r.OK("T3", "shape/"+M.Name(), a.P.Pos(builder.Pos()), "", "fresh map; for i, w := range %s { %s[w] = int64(i) }", list.Name(), M.Name())
 			a.OnceFn[M] = builder
+			a.MapList[M] = list
+			a.G.MapBits[M] = bits
 			sp := a.ListLang[list]
 			switch {
 			case sp == nil:
-				r.Bad("T3", "inverse/"+M.Name(), a.P.Pos(builder.Pos()), "", "%s is built from %s, which is not a canonical list", M.Name(), list.Name())
+				r.Bad("T3c", "inverse/"+M.Name(), a.P.Pos(builder.Pos()), "", "%s is built from %s, which is not a canonical list", M.Name(), list.Name())
 			case sp.Name != lc.Name:
-				r.Bad("T3", "inverse/"+M.Name(), a.P.Pos(builder.Pos()), "", "the map used for %s is built from the %s list", lc.Name, sp.Name)
+				r.Bad("T3c", "inverse/"+M.Name(), a.P.Pos(builder.Pos()), "", "the map used for %s is built from the canonical %s list", lc.Name, sp.Name)
 			default:
-				r.OK("T3", "inverse/"+M.Name(), a.P.Pos(builder.Pos()), "", "inverse of the %s list; values in [0,%d)", sp.Name, len(a.G.Lists[list].Elems))
-				a.G.MapBits[M] = bits
+				r.OK("T3c", "inverse/"+M.Name(), a.P.Pos(builder.Pos()), "", "inverse of the canonical %s list; values in [0,%d)", sp.Name, len(a.G.Lists[list].Elems))
 			}
 		}
 		// every load outside the builder is dominated by the guard's Do
